@@ -785,6 +785,7 @@ def place_origins(body, p, _seen=None, depth=0, extra=()):
     if not ds:
         return {("unknown", "no-def:_%d" % l)}
     rec_seen = set()      # a threaded view repeats one statement in several copies of its block: recurse into it once
+    other_variant = False
     for d in ds:
         if d[0] == "arg":
             out.add(("arg", d[1]) + proj)
@@ -809,6 +810,7 @@ def place_origins(body, p, _seen=None, depth=0, extra=()):
                     if a.get("vname") == pj[0][1:]:
                         pj = pj[1:]          # downcast to the variant that was built
                     else:
+                        other_variant = True
                         continue             # downcast to another variant: this definition cannot be the source
                 # projection into a freshly built aggregate: follow the field operand if we can
                 if pj and a["kind"] in ("tuple", "adt", "closure"):
@@ -862,7 +864,8 @@ def place_origins(body, p, _seen=None, depth=0, extra=()):
         elif d[0] in ("partial", "partialcall"):
             # a field of the local is written separately: only relevant when asking for that field
             pass
-    if not out:
+    if not out and not (other_variant and depth > 0):
+        # (a local that only ever holds another variant than the one asked for contributes no origin to the value it was moved into)
         out.add(("unknown", "only-partial-defs:_%d" % l))
     return out
 
